@@ -366,7 +366,9 @@ func c06CTA(rc *RuleCtx) {
 						why = "the lookup that controls this update uses a different key"
 						continue
 					}
-					found = l
+					if found == nil || domInstr(h.site, l) {
+						found = l // a lookup made inside the critical section (the re-validation) is the one that counts
+					}
 				}
 				if found == nil {
 					rc.bad(cons, s.in.Pos(), why+": the presence/absence of the name was decided by the unlocked walk, so two concurrent calls can both act on it")
